@@ -396,6 +396,9 @@ func genSeqCase(t *rapid.T) *SeqCase {
 		hi = 90_000 // the race detector slows every operation down about tenfold
 	}
 	total := rapid.IntRange(70_000, hi).Draw(t, "totalops")
+	if !c07Race && rapid.IntRange(0, 5).Draw(t, "longhistory") == 0 {
+		total = rapid.IntRange(330_000, 460_000).Draw(t, "totalopslong") // five to seven wraps
+	}
 	p.OpsPerG = total / p.Goroutines
 	for g := 0; g < p.Goroutines; g++ {
 		p.YieldPhase = append(p.YieldPhase, rapid.IntRange(0, 63).Draw(t, "phase"))
@@ -486,12 +489,25 @@ func TestC07(t *testing.T) {
 			}
 		}
 		r.col.Bulk("sequential", int64(cnt), int64(cnt), map[string]int64{"sweep-wraps": int64(cnt)})
+		if envShard == 1 || envShards == 1 {
+			// one sequencer driven through more than 2^32 calls (65538 wraps): RollOverCount is a
+			// 64-bit count and must keep counting past 65535 (a packed 16+16-bit state would not)
+			deep := &SeqSweep{Start: 1, Steps: 1<<32 + 1<<17 + 5}
+			if subC07Seq.one(r, deep) {
+				r.col.Note("deep sweep: one fixed sequencer stepped through 2^32+2^17 calls (65538 wraps)")
+			}
+		}
 		r.col.Exhaustive("C07 fixed sequencer: all 65536 start values, each stepped through two wraps", envShards == 1)
 	} else {
 		subC07Seq.rapidRun(r, n(150, 150), func(t *rapid.T) *SeqSweep {
 			s := biased(t, "start", 0, 65535, 0, 1, 2, 32767, 32768, 65533, 65534, 65535)
 
-			return &SeqSweep{Start: uint16(s), Steps: (65536 - s) + 65536 + 2}
+			steps := (65536 - s) + 65536 + 2
+			if rapid.IntRange(0, 9).Draw(t, "manywraps") == 0 {
+				steps += 65536 * rapid.IntRange(1, 5).Draw(t, "extrawraps") // up to seven wraps
+			}
+
+			return &SeqSweep{Start: uint16(s), Steps: steps}
 		})
 	}
 	// random sequencer: first value below 2^15
